@@ -191,7 +191,7 @@ structure St where
   sp : Option Params := none
   deriving Repr, Inhabited
 
-def parseParams (q : Bytes) : Params := Url.parse q
+def parseParams (q : Bytes) : Params := Url.parseBody q
 
 /-- `syncSearchParams` -/
 def St.sync (st : St) : St :=
